@@ -210,6 +210,20 @@ def templates(tier, seed):
                 {'mnemonic': 'lx', 'text': text, 'uses': [{'set': 'regs', 'id': text.split()[1].rstrip(',')}, u]},
                 expect=('ok',) if rng is None else ('ok', 'rejected'))
 
+    # a register operand without a code of its own whose index operand has one: the index code is still emitted
+    idxn = {'rb': {'type': 'register', 'register': 'rb', 'bytecode': code('i_rb', 4)},
+            'off': {'type': 'numeric', 'bytecode': code('i_n', 4), 'argument': arg(8, True)}}
+    osets = {'idx': {'operand_values': {
+        'ix_i': {'type': 'indexed_register', 'register': 'ix', 'index_operands': idxn},
+        'sp_i': {'type': 'indirect_indexed_register', 'register': 'sp', 'index_operands': idxn}}}}
+    ins = {'lz': {'bytecode': code('op', 4), 'operands': {'count': 1, 'operand_sets': {'list': ['idx']}}}}
+    for i, (text, oid, iid, ival, rng) in enumerate((('lz ix + rb', 'ix_i', 'rb', None, None), ('lz ix + v1', 'ix_i', 'off', V('v1'), vrange(8)),
+                                                     ('lz [sp + rb]', 'sp_i', 'rb', None, None), ('lz [sp+v1]', 'sp_i', 'off', V('v1'), vrange(8)))):
+        u = {'set': 'idx', 'id': oid, 'index_id': iid}
+        if ival is not None:
+            u['index_val'] = ival
+        add(f't7n:{i}:{text}', isa(operand_sets=osets, instructions=ins, consts={'v1': rng} if rng else {}),
+            {'mnemonic': 'lz', 'text': text, 'uses': [u]}, expect=('ok',) if rng is None else ('ok', 'rejected'))
     # index operands whose code is computed from the statement: a signed bit-index and enumerations
     idx = {'nb': {'type': 'numeric_bytecode', 'bytecode': {'size': 3, 'min': Sym('imin', -4, 0), 'max': Sym('imax', 0, 7)}},
            'rr': {'type': 'register', 'register': 'rb', 'bytecode': code('i_rb', 3)}}
